@@ -8,7 +8,7 @@ TECH = "contract-based deductive verification of the real code: Verus (Z3) disch
 CLAIMS = {
  "C01": ("proof of the sequential core (scoped)",
          "Proved for all inputs and unbounded queues: every subscription-actor handler (post/pull/ack/modify/expire/delete/receive) satisfies a two-state contract over the view (backlog, leases, next ack id, deleted); a posted message stays in backlog+leases until a lease of it is acked or the subscription is deleted, nothing enters except through post; topic actor attach/remove/delete are exact map operations.",
-         "NOT covered (trusted A-GLUE): the fan-out of publish_messages to every attached subscription (async move + JoinSet), FIFO mailboxes, races between publish and create/delete, liveness of redelivery (needs the timer and a consumer). Messages::append is an assumed contract (Iterator::size_hint cannot be specified in Verus), cross-checked bounded."),
+         "NOT covered (trusted A-GLUE): the fan-out of publish_messages to every attached subscription (async move + JoinSet), FIFO mailboxes, races between publish and create/delete, liveness of redelivery (needs the timer and a consumer). Messages::append is an assumed contract (Iterator::size_hint cannot be specified in Verus), cross-checked bounded. The clause 'every handed-out message is tracked as outstanding' of pull_messages carries C01/C04 (a message held nowhere can never be redelivered)."),
  "C02": ("proof",
          "Proved: OutstandingMessageTracker::remove and SubscriptionActor::acknowledge_messages remove exactly the named live leases from both tracker structures (representation invariant wf), leave backlog, counter and every other lease unchanged, unknown/stale/repeated ids are no-ops; the two unsafe unwrap_unchecked in take_expired are discharged from wf (no stale expiry key can resurrect an acked message); ack-id parsing is total.",
          "Trusted: that unary and streaming acks reach the handler (async glue), other subscriptions' copies live in other actor values (Rust ownership), derived Ord/Hash of AckId/AckDeadline (A-DERIVE, validated by Kani), BTreeSet::first/pop_first specs."),
@@ -22,23 +22,23 @@ CLAIMS = {
          "Proved: seconds -> Option<Duration> classification over all i32 (<0 INVALID_ARGUMENT, 0 nack, 1..599, >=600 capped); per-pair body of parse_deadline_modifications (lifted region) yields exactly the modification with deadline in [now+N, now+N+100ms) or the error; OutstandingMessageTracker::modify equals the fold of the per-modification spec in request order (old expiry key removed, new inserted, nacked lease returned), modify_deadline appends the nacked messages to the backlog in the same turn; unknown ids are skipped.",
          "Bounded only (Kani, labelled): the zip/map/collect::<Result<Vec,_>> plumbing of parse_deadline_modifications (all-or-nothing). Trusted: that the handler's `?` precedes its only state-touching call (structural), async glue."),
  "C08": ("proof of the sequential parts (scoped)",
-         "Proved: the id-assignment region of publish_messages returns exactly one id per submitted message in request order, id i = (topic id << 32) | (counter + 1 + i), counter advances by n; ids are strictly monotone in the counter (bit-vector lemma); pull returns a prefix of the backlog in order and post appends at the end (FIFO).",
+         "Proved: the id-assignment region of publish_messages returns exactly one id per submitted message in request order, id i = (topic id << 32) | (counter + 1 + i), counter advances by n; ids are strictly monotone in the counter (bit-vector lemma); pull returns a prefix of the backlog in order and post appends at the end; history lemma lemma_fifo (unbounded histories of actor turns): the sequence of first deliveries on a subscription is a prefix of the sequence of accepted posts, each post's batch contiguous and in request order - requeued messages never overtake a never-delivered one.",
          "NOT covered: 'awaits all posts before the next publish' and equal order on every subscription (async fan-out, A-GLUE); fewer than 2^32-1 messages per topic (A-ARITH, u32 counter)."),
  "C09": ("proof of the mapping code (scoped)",
          "Proved: request -> TopicMessage -> ReceivedMessage keeps data bytes and attribute map, message_id is Display of the assigned id, one publish time; MessageId::new is injective on (topic id, counter) (bit-vector proof); topic internal ids are fresh and never reused (delete does not touch next_id); the HTTP push payload region carries base64(data), both id fields, the subscription name and (after fix 79f6033) the attributes.",
          "Trusted: prost / serde_json / base64 encoders, Display of u64 (A-LIB, A-STR: uninterpreted injective functions); Bytes and SystemTime stand-ins; u32 counter wrap (A-ARITH)."),
  "C10": ("proof of the map operations (scoped)",
-         "Proved: State::create_topic / State::create_subscription succeed exactly when the name is absent, then insert exactly that name with a fresh increasing internal id, and leave the state unchanged on ALREADY_EXISTS; the same-project rule is decided before any state access; delegate delete is map.remove; effective ack deadline = max(seconds, 10) for all i32.",
+         "Proved: State::create_topic / State::create_subscription succeed exactly when the name is absent, then insert exactly that name with a fresh increasing internal id, and leave the state unchanged on ALREADY_EXISTS; the same-project rule is decided before any state access; delegate delete is map.remove; effective ack deadline = max(seconds, 10) for all i32; TopicActor::attach_subscription never fails (the create path registers the name before the attach and has no rollback, so 'a failed create leaves nothing behind' rests on this).",
          "NOT covered: linearizability across threads (parking_lot::RwLock trusted; that each wrapper holds the guard around exactly one State call is structural), 'later requests observe it' through the actors, NOT_FOUND mapping in the async handlers."),
  "C11": ("proof of the set algebra (scoped)",
          "Proved: topic actor remove_subscription removes exactly the named entry, delete clears the set, sets deleted and is idempotent, attach never overwrites; subscription delete empties backlog and leases and sets deleted, after which post/pull/ack/modify are no-ops.",
          "NOT covered: order of effects across the two actors, liveness of the Weak<Topic>, the deleted-topic sentinel string (to_string of an upgraded weak reference), re-creation not re-attaching (call-graph fact)."),
  "C13": ("proof with trusted seams",
          "Proved: Paging::new normalises the size (0 -> 20, > 1000 -> 1000), next offset = offset + page length and none for an empty page, negative size is INVALID_ARGUMENT, an issued token decodes to its offset, anything else is INVALID_ARGUMENT or some offset; walk lemma (unbounded list length): following offsets from the first page yields the list exactly once in order with pages <= size, and a hostile offset yields a valid (possibly empty) page.",
-         "Assumed contracts (listed in trusted_base): PageToken::encode/try_decode (base64 + to_ne_bytes; Verus cannot specify const-generic array lengths), <[T]>::sort_unstable. The sort + skip/take/collect tails of list_topics and list_subscriptions_in_project are under contract (window == page_items); their filter/collect heads and the window of TopicActor::list_subscriptions use the `cloned` adapter (no vstd spec) and are covered by the bounded stand-ins only; creation order = order of internal ids (C10)."),
+         "Assumed contracts (listed in trusted_base): PageToken::encode/try_decode (base64 + to_ne_bytes; Verus cannot specify const-generic array lengths; a complete Kani harness ran out of memory at 30 GB, so the codec is swept by the bounded stand-in `tokens` on the mounted source file), <[T]>::sort_unstable. The sort + skip/take/collect tails of list_topics and list_subscriptions_in_project are under contract (window == page_items); their filter/collect heads and the window of TopicActor::list_subscriptions use the `cloned` adapter (no vstd spec) and are covered by the bounded stand-ins only; creation order = order of internal ids (C10)."),
  "C15": ("proof for the size bound (scoped for emptiness)",
          "Proved: |pull result| = pull_count(backlog, max) <= max(cap, 1) with cap <= max_count, including the `usize as u16` truncation of the backlog length (bit-vector lemma); conversion lemma over all i32 m >= 1: the batch never exceeds m even where `m as u16` wraps; streaming limit: try_into::<u16> rejects out-of-range values with INVALID_ARGUMENT; pull returns empty iff the backlog is empty.",
-         "NOT covered: the unary wait loop / 5-minute timer (select!); the `as u16` cast site itself sits inside an async block (the lemma covers its arithmetic)."),
+         "NOT covered by contracts: the unary wait loop / 5-minute timer (select!) and the wake-up of further waiting consumers when a full batch leaves messages behind (Notify; gRPC scenarios `pull_limits`, `two_waiters`, `stream_limits` stand in); the `as u16` cast site itself sits inside an async block (the lemma covers its arithmetic)."),
  "C17": ("proof per parser (scoped)",
          "Proved: every parser under contract is total and panic-free (no unwrap, slicing through checked get, all integer arithmetic overflow-checked), returns INVALID_ARGUMENT exactly on the malformed class; streaming control-message validation rejects inconsistent messages before any subscription call.",
          "NOT covered: 'changes no state / connection survives' at RPC level, panics inside tonic/prost; parse_push_config and parse_project_id are not under contract; AckId::parse is an assumed contract over str::parse::<u64>."),
